@@ -64,7 +64,30 @@ def run(tier):
             p["ops"] += [{"op": "copy", "src": "a", "dst": "b"}, {"op": "liftfile", "file": "b"}]
         p["model"] = progs.model_json(model)
         P.append(p)
+    # deep annotation / UTC index pyramids: small decimate factors and enough entries to fill the second and third level
+    for (adf, cnt) in [(2, 9), (2, 20), (3, 30), (4, 70)] + ([(2, 70), (5, 130), (10, 1050)] if thorough else []):
+        q = progs.anno_program(len(P) + 1, adf, [3 * k + (k % 2) for k in range(cnt)], [0, 5], sig=rng.choice([0, 1]), rng=rng)
+        q["kind"] = "c05-anno"
+        q["ops"].append({"op": "liftfile", "file": "a"})
+        P.append(q)
+        q = progs.utc_program(rng, len(P) + 1, cnt, adf, 1000, nq=4)
+        q["kind"] = "c05-utc"
+        q["ops"].append({"op": "liftfile", "file": "a"})
+        P.append(q)
     trace, v, other = apicheck.run_api(ck, P, "c05", {"C05"}, trace_module="JlsFormatTrace")
+    # tier B: the FSR chunk sequence of every file is the one the writer model JlsWriter.tla emits for the same calls
+    cfgp = C.os.path.join(C.scratch(), "JlsWriterMC_c05.cfg")
+    open(cfgp, "w").write("SPECIFICATION Spec\nCONSTANTS\n  Spd = 4\n  Sdf = 2\n  Eps = 4\n  Sumdf = 2\n  MaxSamples = %d\n  Sizes = {1, 3, 4, 9}\n"
+                          "INVARIANT Inv\nCHECK_DEADLOCK FALSE\n" % (70 if thorough else 44))
+    r = C.tlc("JlsWriterMC", cfgp, timeout=1800, heap="8g")
+    if not ck.add_mc("JlsWriter (FSR chunk emission: tiling, index entries, nothing pending after close)", r):
+        ck.violation({"where": "model", "config": "JlsWriterMC", "invariant": r.violated, "reason": "JlsWriter.tla violates " + str(r.violated)})
+    vw = C.validate_trace_parallel("JlsWriterTrace", "JlsWriterTrace.cfg", trace, parts=12, timeout=1800)
+    ck.log("tier-B conformance with JlsWriter.tla: %d events, %d file(s) whose FSR chunk sequence differs from the model" % (vw.consumed, len(vw.rejections)))
+    if vw.rejections:
+        ck.cov["design_conformance"] = "drift"
+        print("MODEL-DRIFT property=C05 %d file(s) have an FSR chunk sequence that JlsWriter.tla does not produce for the same calls (first: execution %s line %s)"
+              % (len(vw.rejections), vw.rejections[0][0], vw.rejections[0][1]))
     nfiles = sum(1 for l in open(trace) if l.startswith('{"e":"FileEnd"'))
     nchunks = sum(1 for l in open(trace) if l.startswith('{"e":"Chunk"'))
     ck.cov["distinct_nontrivial"] = nfiles
